@@ -19,7 +19,7 @@ def scenarios(tier):
     mon = ("c04",)
     return [
         Scenario("c04-eonly", World, dict(prop="C04", monitors=mon, regions=["R"], emax=2 if q else 3),
-                 BASE + [("ZMOVE", 2), ("ESET", "2")], max_states=150000 if q else 2000000),
+                 BASE + [("ZMOVE", 2), ("ESET", "2"), ("TRAVELE", "O2"), ("TRAVELE", "I1")], max_states=150000 if q else 2000000),
         Scenario("c04-arcs", World, dict(prop="C04", monitors=mon, regions=["R"], emax=2, key_depth=True),
                  [("TRAVEL", "O1"), ("TRAVEL", "O2"), ("TRAVEL", "I1"), ("PRINT", "O1"), ("ARC", "under", "E"),
                   ("ARC", "cross", "E"), ("ARC", "into", "E"), ("ARC", "clear", "E"), ("RETRACT",), ("RECOVER",), ("ESET0",)],
@@ -27,6 +27,12 @@ def scenarios(tier):
         Scenario("c04-firmware", World, dict(prop="C04", monitors=mon, regions=["R", "D"], emax=2),
                  [e for e in BASE if e[0] not in ("RETRACT", "RECOVER")] + [("FWRETRACT",), ("FWRECOVER",)],
                  max_states=150000 if q else 2000000),
+        Scenario("c04-g90e-flag", World, dict(prop="C04", monitors=mon, regions=["R"], emax=2, g90e=True, key_depth=False),
+                 [("TRAVEL", "O2"), ("TRAVEL", "I1"), ("PRINT", "O2"), ("PRINT", "I2"), ("PRINT", "O1"), ("REL",), ("ABS",),
+                  ("SET", "g90e", False), ("SET", "g90e", True), ("NEWPRINT",)],
+                 max_depth=7 if q else 10, max_states=3000000,
+                 note="OctoPrint's global g90InfluencesExtruder flag is on when the plugin loads and is switched in the "
+                      "settings later (while the file is in G90); relative sections then read E accordingly"),
         Scenario("c04-at-inch", World, dict(prop="C04", monitors=mon, regions=["R"], emax=1),
                  [("TRAVEL", "O2"), ("TRAVEL", "I1"), ("PRINT", "O2"), ("PRINT", "I2"), ("PRINT", "O1"), ("RETRACT",),
                   ("RECOVER",), ("ESET0",), ("INCH",), ("MM",), ("AT", "ExcludeRegion", "disable"),
